@@ -332,11 +332,34 @@ class C08(Prop):
 
     def _g_motif(self, g, w, d):
         c = g.r.random()
-        if c < 0.4:
+        if c < 0.35:
             return self._g_motif_idreuse(g, w, d)
-        if c < 0.6:
+        if c < 0.55:
             return self._g_motif_stale_count(g, w, d)
+        if c < 0.75:
+            return self._g_motif_gc_race(g, w, d)
         return self._g_motif_buffer(g, w, d)
+
+    def _g_motif_gc_race(self, g, w, d):
+        """fault-placement motif (biasing, not an oracle): the only other lock on a caller array is
+        held by a graph parked in a reference cycle; the next op on that array is pre-empted by a
+        cyclic-GC pass at a randomly chosen line inside MyGrad - sometimes exactly between the
+        'is it tracked?' test and the increment of its lock count."""
+        if d > 0 or not g.tracking:
+            return
+        r = g.r
+        a = g.arr(shape=g.rand_shape(min_ndim=0, max_ndim=2), dtype="f8")
+        h1 = g._emit_op(r.choice(["mul", "add", "sub"]), [{"a": a}, {"c": 2.0}], spell="f")
+        if h1 is None:
+            return
+        g.drop_t(h1, cycle=True)
+        before = len(g._sink)
+        h2 = g._emit_op(r.choice(["minimum", "mul", "add"]), [{"a": a}, {"c": 1.5}], spell="f")
+        if h2 is None:
+            return
+        g._sink[before]["gcp"] = [r.randint(8, 40)]
+        if r.random() < 0.7:
+            g.drop_t(h2)
 
     def _g_motif_stale_count(self, g, w, d):
         """fault-placement motif (biasing, not an oracle): an array dies while operations still
